@@ -159,6 +159,55 @@ def extractor_deep(index):
     return _deep_cache[id(index)]
 
 
+def outdoor_crop_foods(index, sigma=None):
+    """use -> the Food (as a PDict of rational forms) that extract_outdoor_crops_results stores in self.outdoor_crops_<use>: the constructing
+    helper evaluated (fat and protein tracked) with each of its parameters standing for what extract_results hands over for it - a crop
+    variable family, or the variable table and the family's name"""
+    from .core import bind_args as _ba4
+    if sigma is None:
+        _ax, calls_, _ix = extractor_view(index)
+        b_ = [x[3] for x in calls_ if x[0] == "extract_outdoor_crops_results"]
+        if len(b_) != 1:
+            raise AnalysisError("extract_results: expected one call of extract_outdoor_crops_results")
+        sigma = {p_: (".".join(str(x) for x in v_.parts) if isinstance(v_, Path) else "?") for p_, v_ in b_[0].items()}
+    ocf = index.func(EXT, "Extractor.extract_outdoor_crops_results")
+    cf_ = index.func(EXT, "Extractor.create_food_object_from_fat_protein_variables")
+    cls_ = index.cls(EXT, "Extractor")
+
+    def hook_cf(interp, d, a, kw, node):
+        if d == "self.to_monthly_list":
+            vals = list(a) + list(kw.values())
+            series = [v for v in vals if isinstance(v, Path)]
+            conv = [v for v in vals if not isinstance(v, Path)]
+            if len(series) != 1 or len(conv) != 1:
+                raise Unsupported("to_monthly_list called with other than (a variable family, a conversion factor)", node)
+            return Rat.atom(("series", ".".join(str(x) for x in series[0].parts))) * interp.to_rat(conv[0])
+        if d == "Food":
+            return PDict(dict(kw))
+        return NotImplemented
+
+    out = {}
+    for use in ("to_humans", "biofuel", "feed"):
+        for st in walk_no_nested(ocf):
+            if isinstance(st, ast.Assign) and dotted(st.targets[0]) == f"self.outdoor_crops_{use}" and isinstance(st.value, ast.Call) \
+                    and dotted(st.value.func) == "self.create_food_object_from_fat_protein_variables":
+                kwargs_ = {}
+                for p_, e_ in _ba4(st.value, cf_).items():
+                    if isinstance(e_, ast.Constant) and isinstance(e_.value, str):
+                        kwargs_[p_] = e_.value
+                        continue
+                    t_ = sigma.get(norm_src(e_), "?")
+                    kwargs_[p_] = Path(tuple(t_.split("."))) if t_ != "?" else Opaque("?")
+                it_cf = Interp(decisions={"consts.inputs.INCLUDE_FAT": True, "consts.inputs.INCLUDE_PROTEIN": True})
+                it_cf.classes = {"Extractor": cls_}
+                it_cf.call_hook = hook_cf
+                try:
+                    out[use] = it_cf.call_function(cf_, [], kwargs_, Obj(cls_, {"constants": Path(("consts",))}, "self"))
+                except (Unsupported, Abort, symx.Fork) as e:
+                    raise AnalysisError(f"create_food_object_from_fat_protein_variables outside the analysed fragment: {e!r}")
+    return out
+
+
 def triple_factor(deep, lpfam, exattr):
     """reporting factor of a food: reported to-humans kcals x KCALS_MONTHLY / series(<family>_to_humans), when that is a plain factor"""
     v = deep.get(f"{exattr}_to_humans")
@@ -229,49 +278,20 @@ def chain(index, rep, db):
     # of the parameters are the callee's own business; what each parameter is *used for* is read below through this binding)
     sigma = {p_: (path_text(v_) or "?") for p_, v_ in step["extract_outdoor_crops_results"][2].items()}
     fams9 = [f"variables.crops_food_{u}{n_}" for u in ("to_humans", "biofuel", "feed") for n_ in ("", "_fat", "_protein")]
-    rep.check(sorted(sigma.values()) == sorted(fams9 + ["tc.outdoor_crops.production"]), rule, "extractor:outdoor_crops:arguments",
-              "extract_outdoor_crops_results does not receive the nine crop variable families and the crop supply series, each once "
-              f"(got {sorted(sigma.values())[:4]}...)", loc=loc(EXT, oc))
-    # inside: outdoor_crops_<use> = Food(kcals <- the <use> variables, fat <- <use>_fat, protein <- <use>_protein): the food object built from
-    # them is evaluated with every parameter standing for what extract_results hands over for it
-    cf_ = index.func(EXT, "Extractor.create_food_object_from_fat_protein_variables")
-    cls_ = index.cls(EXT, "Extractor")
-    from .core import bind_args as _ba4
-
-    def hook_cf(interp, d, a, kw, node):
-        if d == "self.to_monthly_list":
-            vals = list(a) + list(kw.values())
-            series = [v for v in vals if isinstance(v, Path)]
-            conv = [v for v in vals if not isinstance(v, Path)]
-            if len(series) != 1 or len(conv) != 1:
-                raise Unsupported("to_monthly_list called with other than (a variable family, a conversion factor)", node)
-            return Rat.atom(("series", ".".join(str(x) for x in series[0].parts))) * interp.to_rat(conv[0])
-        if d == "Food":
-            return PDict(dict(kw))
-        return NotImplemented
-
+    whole_table = sorted(sigma.values()) == sorted(["variables", "tc.outdoor_crops.production"])     # ... or the variable table itself
+    rep.check(whole_table or sorted(sigma.values()) == sorted(fams9 + ["tc.outdoor_crops.production"]), rule, "extractor:outdoor_crops:arguments",
+              "extract_outdoor_crops_results does not receive the nine crop variable families (or the variable table) and the crop supply series, "
+              f"each once (got {sorted(sigma.values())[:4]}...)", loc=loc(EXT, oc))
+    foods_ = outdoor_crop_foods(index, sigma)
     for use in ("to_humans", "biofuel", "feed"):
+        r_ = foods_.get(use)
         ok = False
         detail = ""
-        for st in walk_no_nested(ocf):
-            if isinstance(st, ast.Assign) and dotted(st.targets[0]) == f"self.outdoor_crops_{use}" and isinstance(st.value, ast.Call) \
-                    and dotted(st.value.func) == "self.create_food_object_from_fat_protein_variables":
-                kwargs_ = {}
-                for p_, e_ in _ba4(st.value, cf_).items():
-                    t_ = sigma.get(norm_src(e_), "?")
-                    kwargs_[p_] = Path(tuple(t_.split("."))) if t_ != "?" else Opaque("?")
-                it_cf = Interp(decisions={"consts.inputs.INCLUDE_FAT": True, "consts.inputs.INCLUDE_PROTEIN": True})
-                it_cf.classes = {"Extractor": cls_}
-                it_cf.call_hook = hook_cf
-                try:
-                    r_ = it_cf.call_function(cf_, [], kwargs_, Obj(cls_, {"constants": Path(("consts",))}, "self"))
-                except (Unsupported, Abort, symx.Fork) as e:
-                    raise AnalysisError(f"create_food_object_from_fat_protein_variables outside the analysed fragment: {e!r}")
-                if isinstance(r_, PDict):
-                    want_ = {"kcals": f"variables.crops_food_{use}", "fat": f"variables.crops_food_{use}_fat", "protein": f"variables.crops_food_{use}_protein"}
-                    ok = all(isinstance(r_.d.get(l_), Rat) and {a_[1] for a_ in r_.d[l_].atoms() if isinstance(a_, tuple) and a_ and a_[0] == "series"} == {w_}
-                             for l_, w_ in want_.items())
-                    detail = str({l_: str(r_.d.get(l_)) for l_ in want_})
+        if isinstance(r_, PDict):
+            want_ = {"kcals": f"variables.crops_food_{use}", "fat": f"variables.crops_food_{use}_fat", "protein": f"variables.crops_food_{use}_protein"}
+            ok = all(isinstance(r_.d.get(l_), Rat) and {a_[1] for a_ in r_.d[l_].atoms() if isinstance(a_, tuple) and a_ and a_[0] == "series"} == {w_}
+                     for l_, w_ in want_.items())
+            detail = str({l_: str(r_.d.get(l_)) for l_ in want_})
         rep.check(ok, rule, f"extractor:outdoor_crops:{use}", f"outdoor_crops_{use} is not built from the {use} crop variables (kcals, fat, protein)",
                   loc=loc(EXT, ocf), detail=detail)
     # meat and milk, evaluated through whatever helpers build them: meat from the optimiser's meat_eaten variables, milk's three lanes from the
@@ -478,16 +498,8 @@ def coef(index, rep, db):
     rep.check(lp.get("meat_eaten") == Rat.const(1) and lp.get("crops_food_to_humans") == Rat.const(1), rule, "lp:meat-and-crops-coefficient-1",
               "meat / crops no longer enter the LP consumption sum with coefficient 1", loc=OPT)
     cf = index.func(EXT, "Extractor.create_food_object_from_fat_protein_variables")
-    it4 = Interp(decisions={"consts.inputs.INCLUDE_FAT": False, "consts.inputs.INCLUDE_PROTEIN": False})
-    it4.classes = {"Extractor": cls}
-    it4.call_hook = hook
-    try:
-        from .core import bind_named as _bn4
-        a4_, k4_ = _bn4(cf, [("production_kcals", P), ("production_fat", Rat.atom(("Pf",))), ("production_protein", Rat.atom(("Pp",)))])
-        res4 = it4.call_function(cf, a4_, k4_, Obj(cls, {"constants": Path(("consts",))}, "self"))
-    except Exception as e:
-        raise AnalysisError(f"create_food_object_from_fat_protein_variables outside the fragment: {e!r}")
-    rep.check(isinstance(res4, PDict) and res4.d.get("kcals") == Rat.atom(("series", str(P))) / km, rule, "crops:ratio-1",
+    res4 = outdoor_crop_foods(index).get("to_humans")
+    rep.check(isinstance(res4, PDict) and res4.d.get("kcals") == Rat.atom(("series", "variables.crops_food_to_humans")) / km, rule, "crops:ratio-1",
               "crop variables are not converted with factor 1 / KCALS_MONTHLY", loc=loc(EXT, cf))
     # to_monthly_list: element m is variables[m].varValue * conversion for every month
     tml = index.func(EXT, "Extractor.to_monthly_list")
